@@ -33,6 +33,7 @@ func constIs(v ssa.Value, k constant.Value) bool {
 }
 
 func runC09(c *core.Ctx) {
+	c09PruneUnderTheAccountsLock(c)
 	c09ObsoleteOnlyIfPersisted(c)
 	c09EveryEntryConsulted(c)
 	const spmPkg = "data/state/storagePruningManager"
@@ -367,4 +368,47 @@ func c09EveryEntryConsulted(c *core.Ctx) {
 	c.Check(esc == nil, "C09/every-entry-consulted", "evictionWaitingList.ShouldKeepHash", fn.Pos(),
 		"an entry is passed over without the membership lookup only while identifier == OldRoot",
 		"a waiting entry can be passed over without looking the hash up although the identifier is not known to be OldRoot ("+c.P.PathString(path)+"): when a rolled-back block's new hashes are pruned, nodes that an older, not yet pruned root still lists among its old hashes are not protected and get deleted")
+}
+
+// c09PruneUnderTheAccountsLock: "this hash is not needed any more -> delete it" is atomic with
+// respect to Commit only because both run under the accounts db's operation mutex: every call into
+// the storage pruning manager from AccountsDB happens with mutOp write-locked.
+func c09PruneUnderTheAccountsLock(c *core.Ctx) {
+	const pkg = "data/state"
+	mu := c.P.Field(pkg, "AccountsDB", "mutOp")
+	if mu == nil {
+		c.Undecided("anchor", "AccountsDB.mutOp", 0, "field not found")
+		return
+	}
+	var fns []*ssa.Function
+	for _, f := range c.P.FuncsOfPkg(pkg) {
+		if f.Signature.Recv() != nil && strings.HasSuffix(f.Signature.Recv().Type().String(), "state.AccountsDB") {
+			fns = append(fns, f)
+		}
+	}
+	entry := core.EntryModes(fns, mu)
+	n := 0
+	for _, f := range fns {
+		modes := core.LockModes(f, mu, entry[f])
+		core.Instrs(f, func(in ssa.Instruction) {
+			cc := core.CallOf(in)
+			if cc == nil || !cc.IsInvoke() {
+				return
+			}
+			if _, fld := core.FieldLoad(cc.Value); fld == nil || fld.Name() != "storagePruningManager" {
+				return
+			}
+			switch cc.Method.Name() {
+			case "PruneTrie", "CancelPrune", "MarkForEviction":
+			default:
+				return
+			}
+			n++
+			c.Sites++
+			c.Check(modes[in] == core.ModeW, "C09/prune-under-the-accounts-lock", fname(f)+"/"+cc.Method.Name(), in.Pos(),
+				"the pruning manager is called with mutOp write-locked",
+				fmt.Sprintf("storagePruningManager.%s is called while mutOp is %s: a concurrent Commit can re-create a node between the pruning manager's 'not needed' answer and the delete, and the committed root loses it", cc.Method.Name(), modes[in]))
+		})
+	}
+	c.Floor("C09/prune-under-the-accounts-lock", 3)
 }
